@@ -52,6 +52,7 @@ def run(ctx):
                 cfgs.append((cc, opt, mode))
         # what distribution packagers put on the command line
         cfgs.append((cc, "-O2", "hardened"))
+        cfgs.append((cc, "-O2", "distro"))         # ... with exception tables for C as well (Fedora / RHEL %{optflags})
     cfgs.append(("clang", "-Oz", "hosted"))        # clang's size level rewrites memcmp()==0 into bcmp() when it may assume a C library
     cfgs.append(("gcc", "-O3", "hosted"))
     scns = c01.make_scenarios(ctx, ctx.n(320, 4000))
@@ -68,7 +69,9 @@ def run(ctx):
         name = "%s%s-%s" % (cc, opt, mode)
         lib = os.path.join(d, "libcore-%s.so" % name)
         flags = [opt, "-g", "-fPIC", "-shared", "-nostdlib", "-w", inc]
-        hard = ["-D_FORTIFY_SOURCE=2", "-fstack-protector-strong", "-DNDEBUG", "-D_GNU_SOURCE"] if mode == "hardened" else []
+        hard = ["-D_FORTIFY_SOURCE=2", "-fstack-protector-strong", "-DNDEBUG", "-D_GNU_SOURCE"] if mode in ("hardened", "distro") else []
+        if mode == "distro":
+            hard += ["-fexceptions", "-fasynchronous-unwind-tables"]
         flags += hard
         if mode == "freestanding":
             flags += ["-ffreestanding", "-nostdinc", "-isystem", gcc_inc if cc == "gcc" else clang_inc]
@@ -97,7 +100,7 @@ def run(ctx):
                 for sec in re.findall(r"\s(\.(?:preinit_array|init_array|fini_array|ctors|dtors))\S*\s", sh(["readelf", "-SW", rel]).stdout):
                     und.add("startup-section:" + sec)
                 # the same core in a port without any C runtime: own _start, raw system calls, nobody runs constructors
-                if os.uname().machine == "x86_64" and mode != "hardened":       # (a stack protector needs the runtime's canary set-up)
+                if os.uname().machine == "x86_64" and mode not in ("hardened", "distro"):       # (a stack protector needs the runtime's canary set-up)
                     bare = os.path.join(d, "bare-%s" % name)
                     rb = sh(["gcc", "-O1", "-w", "-fno-builtin", "-fno-tree-loop-distribute-patterns", "-fno-stack-protector", "-ffreestanding",
                              "-nostdlib", "-nostartfiles", "-static", "-DVH_BARE", inc, "-o", bare, os.path.join(H.HARN, "vh_bracket.c"), rel])
